@@ -62,6 +62,22 @@ def main(path):
         print("model counterexample of %s (%s): invariant/property %s" % (obj["module"], obj["what"], obj["violated"]))
         print(obj["trace"][:4000])
         return 1
+    if obj.get("kind") == "hang":
+        import importlib
+        mod, name = obj["fn"].rsplit(".", 1)
+        stim = obj["stimulus"]
+        if name == "run_seq":
+            from . import session
+            fn, stim = session.run_seq, stim["calls"]
+        else:
+            fn = getattr(importlib.import_module(mod), name)
+        try:
+            core.pmap(fn, [stim])
+        except core.HangFound as h:
+            print("VIOLATION property=%s replay=%s clause=%s.no_answer_within_%ds (%s)" % (obj["property"], path, obj["property"], h.seconds, h.fn))
+            return 1
+        print("replay: the call answers on the current tree")
+        return 0
     module, active, trace = obj["module"], set(obj["active"]), obj["trace"]
     pid = obj.get("property", "C00")
     fresh = regenerate(module, trace)
